@@ -50,6 +50,21 @@ def insideB (o : ROpts) (tol : Rat) (l : List (LItem × Rat)) : Bool :=
      | some b => decide (p.2 + p.1.width / 2 ≤ b + tol)
      | none => true))
 
+/-- The stiffness the property text presupposes for the bounds ("stay inside the bounds when the items fit … to within
+0.5 rounding"): a wall at least 10¹⁰ times stiffer than a label moves by at most total displacement / 10¹⁰.  The
+predicates below use this fixed reference, NOT the constant extracted from the source, so that a softened wall in the
+code shows up as a failing input (and `C03.wall_weight_large` re-opens as a proof obligation). -/
+def refWallWeight : Rat := 10000000000
+
+/-- the chain variables with reference-stiff walls -/
+def refChainVars (o : ROpts) (its : List LItem) : List Chain.Item :=
+  (match o.minPos with | some m => [({ w := refWallWeight, t := m } : Chain.Item)] | none => []) ++ its.map toVar ++
+  (match o.maxPos with | some m => [({ w := refWallWeight, t := m } : Chain.Item)] | none => [])
+
+/-- the least-squares optimum with reference-stiff walls (`its` sorted) -/
+def refSolveSorted (o : ROpts) (its : List LItem) : List Rat :=
+  ((Chain.solve eps (refChainVars o its) (chainGaps o its)).drop (leftWall o).length).take its.length
+
 /-- total displacement of a placement from its targets -/
 def displacement (l : List (LItem × Rat)) : Rat := (l.map (fun p => ratAbs (p.2 - p.1.target))).sum
 
